@@ -53,7 +53,7 @@ func (propC14) Decode(raw []byte) (interface{}, error) {
 
 func (propC14) Gen(seed uint64, ex map[string]bool) interface{} {
 	r := newR(seed)
-	f := Feat{MapLoops: true, Include: r.P(50), Inherit: r.P(30), Macros: r.P(40), Dashes: true, BlockDashes: r.P(15)}
+	f := Feat{MapLoops: true, Include: r.P(50), Inherit: r.P(30), Macros: r.P(40), Dashes: true, BlockDashes: r.P(15), RelPaths: r.P(20)}
 	p := genProgram(r, f)
 	// delimiter-heavy extra segments in the main template
 	extras := []string{
